@@ -29,6 +29,7 @@ func lenClass(n int) string {
 
 func runC13(c *Ctx) {
 	c.R.Rule = "string/binary cells per (type, declared-length class deciding the prefix width, actual-length class); distinct = distinct tuples; trivial = none (NULL/empty/absent at row level is covered by C09's row cases)"
+	typedHistories(c, "C13", colCasesC13, c.N(25, 400))
 	r := c.Rng
 	var cases []cellCase
 	add := func(ty vh.Val, s []byte, class string) {
